@@ -18,12 +18,15 @@ import (
 	"path/filepath"
 	"sort"
 	"strings"
+	"time"
 
 	"github.com/LemoFoundationLtd/lemochain-core/store"
+	"github.com/LemoFoundationLtd/lemochain-core/store/leveldb"
 )
 
 type c08Q struct {
 	q    *store.FileQueue
+	ldb  *leveldb.LevelDBDatabase
 	dir  string
 	pend []c08Rec // mirror of the writer's channel (oldest first)
 	done []c08Rec // acknowledged by the "writer", in order
@@ -98,14 +101,44 @@ func (x *c08Q) crash() (line string, lost []string, pendingNotInWal bool) {
 	return fmt.Sprintf("rec=[%s] lost=[%s]", strings.Join(lines, ","), strings.Join(lost, ",")), lost, pendingNotInWal
 }
 
+// realRestart: the data directory as it is NOW (bitcask files, LevelDB index, tmp.data) is copied and opened by the
+// real BeansDB start-up code (scan, redelivery, async writer); every promised key is read back through the real Get.
+// Independent of the harness mirrors that `crash()` computes from: returns the keys whose value differs from the promise.
+func (x *c08Q) realRestart(base string) (lost []string, status string) {
+	img := filepath.Join(base, "qimg")
+	os.RemoveAll(img)
+	c08CopyDir(x.dir, img)
+	defer os.RemoveAll(img)
+	b, st := c08OpenBeans(img)
+	defer b.close()
+	if st != "ok" {
+		return nil, "reopen-panic"
+	}
+	if !c08QueueIdle(b.db.Queue, 10*time.Second) {
+		return nil, "recovery-hang"
+	}
+	prom := map[c08SK][]byte{}
+	c08Replay(prom, x.done)
+	c08Replay(prom, x.pend)
+	for k, pv := range prom {
+		got, err := b.db.Get(k.flg, []byte(k.key))
+		if err != nil || !bytes.Equal(got, pv) {
+			lost = append(lost, fmt.Sprintf("%d:%s", k.flg, hexOrDash([]byte(k.key))))
+		}
+	}
+	sort.Strings(lost)
+	return lost, "ok"
+}
+
 func c08QueueTie(c *Ctx, base string) {
 	nSeq := 12 + c.N/2
 	if c.Tier == "thorough" {
 		nSeq = 40 + c.N/4
 	}
 	keys := [][]byte{{0xa1, 0x01}, {0xa2, 0x02, 0x03}, {0xb3}, {0xc4, 0xc4, 0xc4, 0xc4}}
-	flagOf := []uint32{4, 4, 1, 2}
+	flagOf := []uint32{4, 4, 3, 7} // account, account, trie node, kv (BeansDB.After has nothing to do for these)
 	nval := 0
+	mixedFlags := false // the current sequence contains a key written under two flags: a real restart would die in delIndex too
 	newRec := func(forceKey int) c08Rec {
 		ki := forceKey
 		if ki < 0 {
@@ -121,19 +154,22 @@ func c08QueueTie(c *Ctx, base string) {
 		}
 		flg := flagOf[ki]
 		if c.Rnd.Intn(40) == 0 {
-			flg = 7 // same key under another flag: delIndex panics on the mismatch
+			flg = 6 // same key under another flag: delIndex panics on the mismatch
+			mixedFlags = true
 		}
 		return c08Rec{flg, keys[ki], val}
 	}
 	for seq := 0; seq < nSeq; seq++ {
 		dir := filepath.Join(base, fmt.Sprintf("q%d", seq))
 		os.MkdirAll(dir, 0755)
-		q, err := store.VerifNewDetachedQueue(dir)
+		ldb := leveldb.NewLevelDBDatabase(filepath.Join(dir, "index"), 16, 16)
+		q, err := store.VerifNewDetachedQueueDB(dir, ldb)
 		if err != nil {
 			panic(err)
 		}
-		x := &c08Q{q: q, dir: dir}
+		x := &c08Q{q: q, ldb: ldb, dir: dir}
 		c.Op("qnew", "ok")
+		mixedFlags = false
 		nops := 8 + c.Rnd.Intn(30)
 		reported := false
 		panicked := false
@@ -183,8 +219,16 @@ func c08QueueTie(c *Ctx, base string) {
 					break
 				}
 				op := <-q.SyncFileDB.WriteChan
+				// the record the real queue hands to the writer must be the oldest acknowledged one (FIFO)
+				if op.Flg != x.pend[0].Flg || !bytes.Equal(op.Key, x.pend[0].Key) || !bytes.Equal(op.Val, x.pend[0].Val) {
+					c08Fail(c, "c08/queue-not-fifo", fmt.Sprintf("sequence %d op %d: the writer receives %s, the oldest acknowledged record is %s", seq, i, c08RecStr(op.Flg, op.Key, op.Val), c08RecStr(x.pend[0].Flg, x.pend[0].Key, x.pend[0].Val)), nil)
+				}
 				x.done = append(x.done, x.pend[0])
 				x.pend = x.pend[1:]
+				// what the writer goroutine does: bitcask file + LevelDB position + cursor, then Done -> afterPut
+				if err := q.VerifWriterPut(op); err != nil {
+					panic("bitcask put: " + err.Error())
+				}
 				st := Safe(func() string { q.VerifAfterPut(op); return "ok" })
 				if st == "panic" {
 					c.Op("qdone", "panic "+x.show())
@@ -202,6 +246,21 @@ func c08QueueTie(c *Ctx, base string) {
 			if pnw {
 				c.Count("q:pending-not-in-wal")
 			}
+			// sampled: the same question answered by the real start-up code on a copy of the directory
+			if !mixedFlags && ((seq%4 == 0 && i == 3) || i == nops-1 || (c.Tier == "thorough" && c.Rnd.Intn(6) == 0)) {
+				rlost, rst := x.realRestart(base)
+				c.Count("q:real-restart:" + rst)
+				if rst != "ok" {
+					c08Fail(c, "c08/"+rst+"/queue-restart", fmt.Sprintf("sequence %d op %d: BeansDB does not come up on a copy of the queue's directory", seq, i), nil)
+				} else if strings.Join(rlost, ",") != strings.Join(lost, ",") {
+					// the mirror-based answer and the real restart disagree: the tie's fed values are wrong
+					c08Fail(c, "c08/qcrash-mirror-differs", fmt.Sprintf("sequence %d op %d: keys lost according to the harness mirrors %v, according to a real restart %v", seq, i, lost, rlost), nil)
+				}
+				if len(rlost) > 0 && !reported {
+					reported = true
+					c08Fail(c, "c08/acked-record-lost/wal-removed-with-record-pending", fmt.Sprintf("FileQueue + real restart: after op %d of sequence %d (index %v, %d record(s) pending) a restart on a copy of the directory serves other values than acknowledged for %v", i, seq, q.VerifIndexDump(), len(x.pend), rlost), map[string]interface{}{"level": "FileQueue+BeansDB restart", "sequence": seq, "op": i})
+				}
+			}
 			if (len(lost) > 0 || pnw) && !reported {
 				reported = true
 				sig := "c08/acked-record-lost"
@@ -212,6 +271,7 @@ func c08QueueTie(c *Ctx, base string) {
 			}
 		}
 		q.Close()
+		ldb.Close()
 		os.RemoveAll(dir)
 	}
 }
@@ -321,7 +381,10 @@ func c08RemnantFamily(c *Ctx, base string) {
 			c08Fail(c, "c08/torn-record-phantom", "restart after a torn tail does not deliver exactly the old records: "+line[:min(len(line), 200)], nil)
 		}
 		// a shorter Put arrives while the redelivered records are still pending
-		short := c08Rec{4, []byte{0x20, byte(it)}, c08RandBytes(c, 3+c.Rnd.Intn(200*m))}
+		short := c08Rec{4, []byte{0x20, byte(it)}, c08RandBytes(c, 256*(m-1)+100+c.Rnd.Intn(100))} // encodes to exactly 256*m bytes
+		if it%5 == 4 {
+			short.Val = c08RandBytes(c, 3+c.Rnd.Intn(60)) // ends before the embedded record: garbage of the value follows
+		}
 		c.Op(fmt.Sprintf("wput %d:%s:%s", short.Flg, hexOrDash(short.Key), hexOrDash(short.Val)), w.put(short))
 		written = append(written, short)
 		// crash, restart 2
@@ -335,7 +398,7 @@ func c08RemnantFamily(c *Ctx, base string) {
 			c.Count("remnant:" + cls + ":intact")
 		} else {
 			c.Count("remnant:" + cls + ":phantom")
-			c08Fail(c, "c08/phantom-record/torn-remnant-not-truncated", fmt.Sprintf("tmp.data = %d acknowledged records + a torn %d-byte block record (cut at byte %d) whose value embeds an encoded record at file offset %d; restart (Offset = start of the torn record), Put of a %d-byte record while the redelivered ones are pending (no truncate), restart: the scan delivers %d records, the last one is flag %d key %x value %q — it was never written", nGood, len(rawOuter), cut, len(file)+256*m, 256, len(recs), recs[len(recs)-1].Flg, recs[len(recs)-1].Key, string(recs[len(recs)-1].Val)),
+			c08Fail(c, "c08/phantom-record/torn-remnant-not-truncated", fmt.Sprintf("tmp.data = %d acknowledged records + a torn %d-byte block record (cut at byte %d) (cut at record byte, file offset of the record %d) whose value embeds an encoded record at file offset %d; restart (Offset = start of the torn record), Put of a %d-byte record while the redelivered ones are pending (no truncate), restart: the scan delivers %d records, the last one is flag %d key %x value %q — it was never written", nGood, len(rawOuter), cut, len(file), len(file)+256*m, 256*m, len(recs), recs[len(recs)-1].Flg, recs[len(recs)-1].Key, string(recs[len(recs)-1].Val)),
 				map[string]interface{}{"level": "FileQueue", "good": nGood, "cut": cut, "embedded_at": len(file) + 256*m})
 		}
 		// a third restart must be a fixed point (crash during recovery / right after it)
